@@ -967,6 +967,50 @@ def _link_probes(ctx):
                     shutil.rmtree(tmp, ignore_errors=True)
 
 
+def _unlink_probes(ctx):
+    """An entry that was reached through a symbolic link is removed from the mapping ("entries removed from the mapping
+    are deleted"): the link is gone afterwards - also when the mapping keeps / gains an entry for the file the link pointed
+    to (the caller "de-symlinks" the ledger: `files[real] = files.pop(link)`), which then holds the printed model."""
+    import os, tempfile, shutil, io
+    from autobean_refactor import editor as editor_lib, printer
+    for how in ('pop-only', 'desymlink', 'desymlink-edited'):
+        tmp = tempfile.mkdtemp(prefix='verif-c16-unlink-')
+        cwd = os.getcwd()
+        rep = {'probe': 'unlink', 'how': how}
+        try:
+            os.makedirs(os.path.join(tmp, 'inc'))
+            os.makedirs(os.path.join(tmp, 'archive'))
+            with open(os.path.join(tmp, 'main.bean'), 'wb') as f:
+                f.write(b'include "inc/*.bean"\n2000-01-01 open Assets:A\n')
+            target = os.path.join(tmp, 'archive', '2024.bean')
+            orig = b'2000-01-02 open Assets:B\r\n'
+            with open(target, 'wb') as f:
+                f.write(orig)
+            link = os.path.join(tmp, 'inc', 'alias.bean')
+            os.symlink(os.path.join('..', 'archive', '2024.bean'), link)
+            os.chdir(tmp)
+            expected = orig
+            with editor_lib.Editor().edit_file_recursive('main.bean') as files:
+                k = next(x for x in files if x.endswith('alias.bean'))
+                model = files.pop(k)
+                if how != 'pop-only':
+                    if how == 'desymlink-edited':
+                        model.raw_directives[0].account = 'Assets:Z'
+                    files[os.path.join('archive', '2024.bean')] = model
+                    expected = printer.print_model(model, io.StringIO()).getvalue().encode()
+            ctx.case(('unlink', how))
+            if os.path.lexists(link):
+                ctx.oracle_fail('C16:removed-not-deleted:link', f'an entry reached through a symbolic link was removed from the mapping ({how}) and still exists after the block', rep)
+            elif not os.path.exists(target) or open(target, 'rb').read() != expected:
+                ctx.oracle_fail('C16:edited-content:unlink', f'the file the removed link pointed to ({how}) holds '
+                                f'{open(target, "rb").read() if os.path.exists(target) else None!r}, expected {expected!r}', rep)
+        except Exception as e:
+            ctx.oracle_fail(f'C16:exception:unlink:{type(e).__name__}', repr(e)[:200], rep)
+        finally:
+            os.chdir(cwd)
+            shutil.rmtree(tmp, ignore_errors=True)
+
+
 def _reuse_probes(ctx):
     """ONE Editor instance used for several blocks on the same files: a block that raised, or a file restored behind the
     editor's back, leaves nothing behind in the instance - every block starts from what is on disk now."""
@@ -1076,6 +1120,7 @@ def _nested_probes(ctx):
 def run(ctx):
     _rekey_probes(ctx)
     _link_probes(ctx)
+    _unlink_probes(ctx)
     _reuse_probes(ctx)
     _nested_probes(ctx)
     _run_many(ctx, ctx.scale(150, 5000), with_model=ctx.extra.get('model_available', True))
@@ -1089,10 +1134,10 @@ def replay(ctx, data):
     spec = data.get('replay') or data.get('first_diverging_replay')
     if not spec:
         return False
-    if spec.get('probe') in ('rekey', 'reuse', 'nested', 'link'):
+    if spec.get('probe') in ('rekey', 'reuse', 'nested', 'link', 'unlink'):
         import check
         c = check.Ctx('C16', 'quick', ctx.seed)
-        {'rekey': _rekey_probes, 'reuse': _reuse_probes, 'nested': _nested_probes, 'link': _link_probes}[spec['probe']](c)
+        {'rekey': _rekey_probes, 'reuse': _reuse_probes, 'nested': _nested_probes, 'link': _link_probes, 'unlink': _unlink_probes}[spec['probe']](c)
         return not c.oracle_fails
     res = run_scenario(spec, want_line=False)
     _classify_unexpected(spec, res)
